@@ -81,9 +81,12 @@ class ConfigMonitor:
 
         self.world = world
         self.cfgmod = cfgmod
-        self.members = list(cfgmod.CONFIG_MEMBERS)
-        if len(self.members) < 8:
-            raise HarnessError("CONFIG_MEMBERS unexpectedly short")
+        from sim.seams import CONFIG_MEMBER_NAMES
+
+        self.members = list(CONFIG_MEMBER_NAMES)
+        missing = [m for m in self.members if not hasattr(cfgmod._GeckoActiveConfig, m)]
+        if missing:
+            raise HarnessError(f"timing table members no longer exist: {missing}")
         self.expected_mode: Optional[bool] = None     # what the last switch asked for
         self.bad: Optional[str] = None
         self.samples = 0
